@@ -13,7 +13,7 @@ from . import reportlib
 from .common import Hist, make_cfg, method_tree, slots_of
 
 PROPS = ("C17",)
-BUDGET = {"quick": 1200, "thorough": 3600}
+BUDGET = {"quick": 1200, "thorough": 1500}
 CHUNK = 60
 
 
